@@ -3,7 +3,8 @@ use crate::authoring::*;
 
 // NOTE: roll and drop are not implemented yet
 #[rustfmt::skip]
-pub const STACK_GAMUT: [OpParameter; 7] = [
+pub const STACK_GAMUT: [OpParameter; 8] = [
+    OpParameter::Flag    { key: "inv" },
     OpParameter::Series  { key: "push", default: Some("") },
     OpParameter::Series  { key: "pop",  default: Some("") },
     OpParameter::Series  { key: "roll", default: Some("") },
